@@ -117,7 +117,7 @@ def cell_cases(draw, cell):
         rhs = ["arr2", g.matrix_data(shape[0], shape[1])]
     pts = draw(gen.points(all_var_names(env), k=3))
     tol = draw(st.sampled_from([1e-8, 1e-3, 0.5]))
-    return {"env": env, "cell": cell, "lhs": lhs, "rhs": rhs, "points": pts, "tol": tol,
+    return {"env": env, "cell": cell, "lhs": lhs, "rhs": rhs, "points": pts, "tol": tol, "deep_algorithms": draw(st.integers(0, 3)) == 0,
             "newp": draw(st.sampled_from([3.0, -2.0, 0.25]))}
 
 
